@@ -76,7 +76,7 @@ Proof.
   assert (Hw : match s.(reg) with
      | Some k => is_live s.(wctx) k && match s.(ready) with [] => true | _ => false end && negb s.(ended)
      | None => false end = true).
-  { destruct s.(running) as [[[k| |] pc]|]; try done. }
+  { destruct s.(running) as [[[k| |] pc]|]; try done. destruct pc; done. }
   destruct s.(reg) as [k|]; [|done]. exists k. split; [done|].
   apply andb_true_iff in Hw as [[Ha Hb]%andb_true_iff Hc]. split; [done|].
   split; [by destruct s.(ready)|by destruct s.(ended)].
